@@ -21,6 +21,12 @@ PROFILES = {
     'late':      dict(cons=dict(task=1, opt=0, fol=0, res=8), p_opt=0.2, p_copt=0.05, resources=1.0, p_bad=0.0, ncons=(1, 3), p_late=0.8,
                       rescons=['CUnavailable', 'CWorkLoad', 'CInterrupted']),
     'mixed':     dict(cons=dict(task=4, opt=2, fol=2, res=4), p_opt=0.35, p_copt=0.2, resources=0.8, p_bad=0.0, ncons=(1, 7)),
+    'indicators': dict(cons=dict(task=3, opt=1, fol=0, res=1, buf=1), p_opt=0.35, p_copt=0.05, resources=0.9, p_bad=0.0, ncons=(0, 4),
+                       p_buf=0.4, n_ind=(1, 4), p_obj=0.3),
+    'buffers':   dict(cons=dict(task=2, opt=1, fol=0, res=0, buf=6), p_opt=0.3, p_copt=0.0, resources=0.2, p_bad=0.0, ncons=(1, 6),
+                      p_buf=1.0, n_ind=(0, 2), p_obj=0.2),
+    'objectives': dict(cons=dict(task=3, opt=1, fol=0, res=1, buf=1), p_opt=0.35, p_copt=0.05, resources=0.8, p_bad=0.0, ncons=(0, 4),
+                       p_buf=0.3, n_ind=(0, 2), p_obj=1.0),
     'malformed': dict(cons=dict(task=4, opt=3, fol=2, res=4), p_opt=0.35, p_copt=0.3, resources=0.9, p_bad=1.0, ncons=(1, 5)),
 }
 
@@ -60,6 +66,9 @@ class Gen:
         self.selects = {}    # id -> listed
         self.cons = {}       # id -> dict(opt, kind, used)
         self.assigned = {}   # resobj key -> set of task ids
+        self.buffers = {}    # id -> dict(conc)
+        self.inds = {}       # id -> kind
+        self.nexti = 1
         self.nextc = 1
         hz = r.choice([None, None, 1, 7, 10, 20, 20, 30, 30, 200, 200])
         self.horizon = hz
@@ -89,6 +98,14 @@ class Gen:
                                      (r.choice(['PbMin', 'PbMax', 'PbExact']),)))
                     self.selects[sid] = listed
             self.assignments(r.randint(1, 2 * nt))
+        if r.random() < self.pf.get('p_buf', 0.0):
+            for b in range(1, r.choice([1, 1, 2]) + 1):
+                conc = r.random() < 0.5
+                init = r.choice([None, 0, 5, 10, 10])
+                final = r.choice([None, None, None, 3, 8]) if init is not None else r.choice([0, 4, 10])
+                self.ops.append(('ONewBuffer', N(b), conc, optZ(init), optZ(final),
+                                 optZ(r.choice([None, None, 0, 2])), optZ(r.choice([None, None, 12, 20]))))
+                self.buffers[b] = dict(conc=conc)
         lo, hi = self.pf['ncons']
         ncons = r.randint(lo, hi + (3 if self.big else 0))
         for _ in range(ncons):
@@ -96,9 +113,109 @@ class Gen:
             # late assignment (after constraints exist)
             if self.workers and r.random() < self.pf.get('p_late', 0.12):
                 self.assignments(1)
+        lo, hi = self.pf.get('n_ind', (0, 0))
+        for _ in range(r.randint(lo, hi)):
+            self.new_indicator()
+            if self.workers and r.random() < self.pf.get('p_late', 0.08):
+                self.assignments(1)
+        if r.random() < self.pf.get('p_obj', 0.0):
+            for _ in range(r.choice([1, 1, 1, 2, 2, 3])):
+                self.new_objective()
         if r.random() < self.pf['p_bad']:
             return self.malform(self.ops)
         return self.ops
+
+    # ---- indicators / objectives ----
+    def any_resobj(self):
+        objs = [('ResW', w) for w in self.workers] + [('ResC', N(c)) for c in self.cumuls]
+        return self.r.choice(objs) if objs else None
+
+    def task_subset(self):
+        r = self.r
+        if r.random() < 0.5:
+            return None
+        ts = list(self.tasks)
+        return Some([N(x) for x in r.sample(ts, r.randint(1, len(ts)))])
+
+    def ind_term(self):
+        r = self.r
+        ts = list(self.tasks)
+        parts = []
+        for t in r.sample(ts, r.randint(1, min(3, len(ts)))):
+            v = ('TV', (r.choice(['VStart', 'VEnd']), N(t)))
+            parts.append(v if r.random() < 0.5 else ('TMul', ('TC', Z(r.choice([1, 2, 3]))), v))
+        if r.random() < 0.3:
+            parts.append(('TC', Z(r.choice([1, 5]))))
+        return ('TAdd', parts) if len(parts) > 1 else parts[0]
+
+    def new_indicator(self):
+        r = self.r
+        kinds = ['IExpr', 'ITardiness', 'IEarliness', 'INbTardy', 'IMaxLateness']
+        if self.workers or self.cumuls:
+            kinds += ['IUtilization', 'INbTasks', 'IIdle', 'ICost', 'IUtilization', 'INbTasks', 'ICost']
+        if self.buffers:
+            kinds += ['IMaxBuf', 'IMinBuf']
+        k = r.choice(kinds)
+        bounds = None
+        if k == 'IExpr':
+            e = (k, self.ind_term())
+            if r.random() < 0.3:
+                bounds = Some(P(Z(r.choice([0, 2])), Z(r.choice([30, 100]))))
+        elif k in ('IUtilization', 'INbTasks', 'IIdle'):
+            e = (k, self.any_resobj())
+        elif k in ('ITardiness', 'IEarliness', 'INbTardy', 'IMaxLateness'):
+            e = (k, self.task_subset())
+        elif k == 'ICost':
+            objs = [('ResW', w) for w in self.workers] + [('ResC', N(c)) for c in self.cumuls]
+            e = (k, r.sample(objs, r.randint(1, len(objs))))
+        else:
+            e = (k, N(r.choice(list(self.buffers))))
+        iid = self.nexti
+        self.nexti += 1
+        self.ops.append(('ONewIndicator', N(iid), e, bounds))
+        self.inds[iid] = k
+        # sometimes constrain it
+        if r.random() < 0.25:
+            cid = self.nextc
+            self.nextc += 1
+            if r.random() < 0.5:
+                ce = ('CIndTarget', N(iid), Z(r.choice([0, 1, 2, 5, 10])))
+            else:
+                lo = r.choice([None, 0, 1])
+                hi = r.choice([None, 5, 20]) if lo is not None else r.choice([5, 20])
+                ce = ('CIndBounds', N(iid), optZ(lo), optZ(hi))
+            self.ops.append(('ONewConstraint', N(cid), False, ce))
+            self.cons[cid] = dict(opt=False, kind=ce[0], used=False)
+
+    def new_objective(self):
+        r = self.r
+        kinds = ['OMakespan', 'OStartLatest', 'OStartEarliest', 'OGreatestStart', 'OFlowtime', 'OPriorities']
+        if self.workers or self.cumuls:
+            kinds += ['OMaxUtilization', 'OMinCost', 'OFlowtimeSingle']
+        if self.buffers:
+            kinds += ['OMaxBufMax', 'OMinBufMax']
+        if self.inds:
+            kinds += ['OMinIndicator', 'OMaxIndicator', 'OMinIndicator']
+        k = r.choice(kinds)
+        if k in ('OMakespan', 'OStartEarliest', 'OPriorities'):
+            o = (k,)
+        elif k in ('OStartLatest', 'OGreatestStart', 'OFlowtime'):
+            o = (k, self.task_subset())
+        elif k == 'OMaxUtilization':
+            o = (k, self.any_resobj())
+        elif k == 'OMinCost':
+            objs = [('ResW', w) for w in self.workers] + [('ResC', N(c)) for c in self.cumuls]
+            o = (k, r.sample(objs, r.randint(1, len(objs))))
+        elif k == 'OFlowtimeSingle':
+            iv = None if r.random() < 0.5 else Some(P(*map(Z, self.wide_interval())))
+            o = (k, self.any_resobj(), iv)
+        elif k in ('OMaxBufMax', 'OMinBufMax'):
+            o = (k, N(r.choice(list(self.buffers))))
+        else:
+            o = (k, N(r.choice(list(self.inds))), Z(r.choice([1, 1, 2, 3])))
+        iid = self.nexti
+        self.nexti += 1
+        self.ops.append(('ONewObjective', o, N(iid)))
 
     def cost(self):
         r = self.r
@@ -164,7 +281,7 @@ class Gen:
     # ---- constraints ----
     def pick_family(self):
         w = self.pf['cons']
-        fams = [f for f in ('task', 'opt', 'fol', 'res') if w[f] > 0]
+        fams = [f for f in ('task', 'opt', 'fol', 'res', 'buf') if w.get(f, 0) > 0]
         return self.r.choices(fams, weights=[w[f] for f in fams])[0]
 
     def raw_form(self):
@@ -262,6 +379,11 @@ class Gen:
                     return
                 sel = r.sample(oc, r.randint(1, len(oc)))
                 e = (k, [N(c) for c in sel], Z(r.randint(1, len(sel))), (r.choice(['PbMin', 'PbMax', 'PbExact']),))
+        elif fam == 'buf':
+            if not self.buffers:
+                return
+            b = r.choice(list(self.buffers))
+            e = (r.choice(['CLoad', 'CUnload']), N(r.choice(ts)), N(b), Z(r.choice([1, 2, 3, 5])))
         else:
             e = self.res_constraint()
         if e is None:
